@@ -54,9 +54,21 @@ class RemoveEmptyStringConcatenation(
         if is_empty_string_literal(left):
             if is_empty_string_literal(right):
                 return cst.SimpleString(value='""')
-            return right
+            return self._keep_parentheses(updated_node, right)
         if is_empty_string_literal(right):
             if is_empty_string_literal(left):
                 return cst.SimpleString(value='""')
-            return left
+            return self._keep_parentheses(updated_node, left)
         return updated_node
+
+    def _keep_parentheses(self, removed_node, kept_operand):
+        """
+        The surviving operand inherits the parentheses of the expression it replaces:
+        they may be what allows the expression to span several lines.
+        """
+        if not removed_node.lpar:
+            return kept_operand
+        return kept_operand.with_changes(
+            lpar=[*removed_node.lpar, *kept_operand.lpar],
+            rpar=[*kept_operand.rpar, *removed_node.rpar],
+        )
